@@ -391,6 +391,10 @@ func (g *gen) acase() acaseT {
 	k.Prod = r.Chance(1, 4)
 	// a guard: c.Abort() first, then the error response
 	k.AbortFirst = r.Chance(1, 6)
+	// the Accept header grows a field line while the request is served, after an earlier negotiation
+	if r.Chance(1, 8) {
+		k.AcceptAdd = hx.Pick(r, ranges) + hx.Pick(r, []string{"", ";q=0.9", ";q=0.5", ";q=0"})
+	}
 	// a user-written formatter whose body never encodes: only "abort the chain" is left of the statement
 	if r.Chance(1, 40) {
 		k.Opts = []optT{{F: &fmtT{Kind: "broken"}}}
@@ -408,7 +412,7 @@ func (g *gen) acase() acaseT {
 // ocase: 2 or 3 failing requests that overlap on one app
 func (g *gen) ocase() ocaseT {
 	r := g.r
-	k := ocaseT{Opts: g.opts(), Park: hx.Pick(r, []string{"h", "w"})}
+	k := ocaseT{Opts: g.opts(), Park: hx.Pick(r, []string{"h", "w", "d"})}
 	n := r.Range(2, 3)
 	for i := 0; i < n; i++ {
 		a := g.acase()
@@ -516,9 +520,22 @@ func fixedCases() []caseT {
 		add(acaseT{Wire: "r", Opts: []optT{{F: &f}}, Len: 4, Pos: 1, Mask: 0x10f, Call: callT{Kind: "helper", Helper: 3, Err: &nan}})
 		add(acaseT{Wire: "s", Opts: []optT{{F: &f}}, Len: 3, Pos: 0, Mask: 7, Call: callT{Kind: "fail", Err: &errT{Kind: "wrap", Msg: "ctx", Inner: &nan}}})
 	}
+	// an earlier negotiation in the request, then a second Accept field line, then the failure
+	add(acaseT{Wire: "r", Opts: neg, Accept: sp("text/html"), AcceptAdd: "application/vnd.api+json", Len: 3, Pos: 2, Mask: 3, Call: callT{Kind: "helper", Helper: 0, Err: boom}})
+	add(acaseT{Wire: "s", Opts: neg, Accept: sp("application/json;q=0.1"), AcceptAdd: "application/vnd.api+json", Len: 2, Pos: 1, Mask: 1, Call: callT{Kind: "fail", Err: boom}})
 	// a formatter whose body never encodes, in front of a protected handler and an after-handler
 	add(acaseT{Wire: "r", Opts: []optT{{F: &fmtT{Kind: "broken"}}}, Len: 4, Pos: 1, Mask: 0x10f, Call: callT{Kind: "helper", Helper: 3, Err: boom}})
 	add(acaseT{Wire: "r", Opts: []optT{{F: &fmtT{Kind: "broken"}}}, Len: 3, Pos: 0, Mask: 7, Call: callT{Kind: "fail", Err: boom}})
+	// two failing requests with different statuses on one shared formatter; the first is inside Details() while the second is served
+	for _, f := range []fmtT{japi, rfc, simple} {
+		f := f
+		opts := []optT{{F: &f}}
+		slow := errT{Kind: "typed", Msg: "invalid order", HasSt: true, St: 422, HasDe: true, Det: `[{"path":"qty","code":"min","message":"too small"}]`}
+		out = append(out, caseT{O: &ocaseT{Opts: opts, Park: "d", Reqs: []acaseT{
+			{Wire: "r", Opts: opts, Len: 2, Pos: 1, Mask: 1, Call: callT{Kind: "fail", Err: &slow}},
+			{Wire: "r", Opts: opts, Len: 2, Pos: 1, Mask: 1, Call: callT{Kind: "helper", Helper: 0, Err: &errT{Kind: "new", Msg: "no such user"}}},
+		}}})
+	}
 	// MarshalJSON with extensions that try to override every reserved member
 	out = append(out, caseT{M: &mcaseT{Type: "about:blank", Title: "Not Found", Status: 404, Ext: []extT{
 		{"type", `"evil"`}, {"title", `"evil"`}, {"status", `200`}, {"detail", `"evil"`}, {"instance", `"evil"`}, {"trace", `"t-` + strconv.Itoa(1) + `"`}}}})
